@@ -502,6 +502,11 @@ def load_module_from_path(inference_state, file_io, import_names=None, is_packag
     if import_names is None:
         e_sys_path = inference_state.get_sys_path()
         import_names, is_package = sys_path.transform_path_to_dotted(e_sys_path, path)
+        if import_names is None:
+            # The file is not on sys.path (e.g. a project file with a narrowed
+            # sys path). It cannot be imported, name it after its file.
+            is_package = path.stem == '__init__'
+            import_names = (path.parent.name if is_package else path.stem,)
     else:
         assert isinstance(is_package, bool)
 
@@ -543,6 +548,9 @@ def load_namespace_from_path(inference_state, folder_io):
         inference_state.get_sys_path(),
         Path(folder_io.path)
     )
+    if import_names is None:
+        # Not on sys.path, name it after the folder.
+        import_names = (Path(folder_io.path).name,)
     from jedi.inference.value.namespace import ImplicitNamespaceValue
     return ImplicitNamespaceValue(inference_state, import_names, [folder_io.path])
 
